@@ -21,7 +21,9 @@
        i.e. '^k' is a postfix operator.
      * unary minus may start any operand of a product or sum ("2*-x", "x--x", "--x").
      * any character outside the token set makes the expression ill-formed; a rational
-       with zero denominator is ill-formed. *)
+       with zero denominator is ill-formed.
+     * the tokenizer knows six spellings of the variable, [xXzZyY]; the grammar action maps every one
+       of them to the monomial x, so "x*Y" is x^2 (the model follows the code; round 6). *)
 Require Import List ZArith NArith QArith Qcanon Ascii String Bool Arith.
 Import ListNotations.
 Open Scope list_scope.
@@ -131,6 +133,10 @@ Definition pow10 (k : nat) : positive := Pos.pow 10 (Pos.of_nat k).
 Definition pow10' (k : nat) : positive := match k with O => 1%positive | _ => pow10 k end.
 Definition is_e (c : ascii) : bool := (nat_of_ascii c =? 101)%nat || (nat_of_ascii c =? 69)%nat.
 
+(* tokenizer.l: [xXzZyY] -> MONOMIAL; the grammar action gives every one of them the meaning "the variable" *)
+Definition is_var (n : nat) : bool :=
+  (n =? 120)%nat || (n =? 88)%nat || (n =? 122)%nat || (n =? 90)%nat || (n =? 121)%nat || (n =? 89)%nat.
+
 (* optional exponent part [eE][+-]?[0-9]+ : returns (negative?, digits, rest) *)
 Definition lex_exp (s : list ascii) : option (bool * list ascii * list ascii) :=
   match s with
@@ -205,7 +211,7 @@ Fixpoint lex_fuel (fuel : nat) (s : list ascii) : option (list token) :=
         | Some (t, r') => match lex_fuel f r' with Some ts => Some (t :: ts) | None => None end
         | None => None
         end
-      else if (n =? 120)%nat then cons TX                      (* 'x' : the property's variable *)
+      else if is_var n then cons TX                            (* [xXzZyY]: the six spellings of the variable *)
       else if (n =? 43)%nat then cons TPlus
       else if (n =? 45)%nat then cons TMinus
       else if (n =? 105)%nat then cons TI
